@@ -78,7 +78,7 @@ Proof.
     [|rewrite Emsg, <- !app_assoc; reflexivity|rewrite !lenN_app; unfold T; cbn [u16 lenN length N.of_nat]; lia|reflexivity].
   cbn [bind fst snd]. unfold T, C. rewrite !be_u16 by assumption.
   f_equal. f_equal.
-  - destruct q. cbn in *. now rewrite Hname.
+  - destruct q as [qn qt qc]. cbn [q_name q_type q_class] in *. now rewrite Hname.
   - rewrite !lenN_app. cbn [u16 lenN length N.of_nat]. lia.
 Qed.
 
@@ -98,6 +98,346 @@ Proof.
     split; [intros _; rewrite lenN_app; lia|].
     intro post. cbn [length unpack_questions].
     rewrite E2, <- app_assoc, Hu1. cbn [bind fst snd].
-    bfalse (lenN (pn_out a) =? lenN (pn_out st)); [rewrite E1, lenN_app; lia|].
+    assert (Hadv : (lenN (pn_out a) =? lenN (pn_out st)) = false) by (rewrite E1, lenN_app; lia).
+    rewrite Hadv.
     rewrite app_assoc, <- E2, Hu2, <- app_assoc. reflexivity.
 Qed.
+
+(* ================= record sections ================= *)
+Definition rr_canon (r : rr) : Prop :=
+  exists L ls, find_layout layouts (rr_kind r) = Some L /\ rr_ok r ls /\ fields_canon (rr_data r) (tl_pack L).
+Definition rr_agrees (r' r : rr) : Prop :=
+  exists L, find_layout layouts (rr_kind r) = Some L /\ rr_same L r' r.
+
+Lemma layout_ok_of_find k L : find_layout layouts k = Some L -> layout_ok [] (tl_pack L) = true.
+Proof.
+  intro H. pose proof all_layouts_supported as A. rewrite forallb_forall in A.
+  exact (A L (find_layout_in _ _ _ H)).
+Qed.
+
+Lemma crrs_roundtrip l : forall capc cpc stc stc' capu outu stu' acc,
+  Forall rr_canon l -> st_inv stc ->
+  pack_rrs l capc cpc stc = Ok stc' -> pack_rrs l capu false (st0 outu) = Ok stu' ->
+  lenN (pn_out stc') < capc -> lenN (pn_out stu') < capu ->
+  st_inv stc' /\ (exists bu, stu' = st0 (outu ++ bu)) /\
+  exists b, pn_out stc' = pn_out stc ++ b /\ (l <> [] -> 1 <= lenN b) /\
+    forall post, exists rs',
+      unpack_rr_slice (length l) (pn_out stc' ++ post) (lenN (pn_out stc)) acc =
+        Ok (acc ++ rs', lenN (pn_out stc')) /\
+      Forall2 rr_agrees rs' l.
+Proof.
+  induction l as [|r t IH]; intros capc cpc stc stc' capu outu stu' acc Hc Hinv Hpc Hpu Hltc Hltu.
+  - cbn in Hpc, Hpu. injection Hpc as <-. injection Hpu as <-. split; [exact Hinv|].
+    split; [exists []; now rewrite app_nil_r|]. exists []. split; [now rewrite app_nil_r|].
+    split; [congruence|]. intro post. exists []. cbn. rewrite app_nil_r. split; [reflexivity|constructor].
+  - inversion Hc as [|? ? [L [ls [Hfind [Hrok Hcanon]]]] Hc']; subst.
+    cbn [pack_rrs] in Hpc, Hpu. inv_bind Hpc. inv_bind Hpu. rename a into c1. rename a0 into u1.
+    pose proof (proj1 (proj1 (st_inv_split stc) Hinv)) as Hk.
+    destruct (pack_rr_mono _ _ _ _ _ Hk Ha) as [Hk1 [_ Hm1]].
+    destruct (pack_rrs_mono _ _ _ _ _ Hk1 Hpc) as [_ [_ Hm2]].
+    destruct (pack_rr_mono r capu false (st0 outu) u1 I Ha0) as [Hku1 [_ Hmu1]].
+    destruct (pack_rrs_mono _ _ _ _ _ Hku1 Hpu) as [_ [_ Hmu2]].
+    cbn [st0 pn_out] in Hmu1.
+    assert (Hcapc : lenN (pn_out stc) < capc) by lia.
+    assert (Hcapu : lenN outu < capu) by lia.
+    pose proof (layout_ok_of_find _ _ Hfind) as Hlok.
+    destruct (crr_roundtrip r L ls capc cpc stc c1 capu outu u1 [] Hfind Hlok Hrok Hcanon Hinv Hcapc Hcapu Ha Ha0)
+      as [bn0 [rd0 [_ [Hbn0 [E1 [_ [_ [_ [bu1 ->]]]]]]]]].
+    pose proof (pack_rr_st_inv _ _ _ _ _ Hinv Hcapc Ha) as Hinv1.
+    destruct (IH capc cpc c1 stc' capu (outu ++ bu1) stu' (acc ++ []) Hc' Hinv1 Hpc Hpu Hltc Hltu)
+      as [Hinv2 [[bu2 ->] [b2 [E2 _]]]].
+    split; [exact Hinv2|]. split; [exists (bu1 ++ bu2); now rewrite app_assoc|].
+    exists (crr_wire bn0 r rd0 ++ b2). split; [now rewrite E2, E1, app_assoc|].
+    split; [intros _; rewrite lenN_app, len_crr_wire; lia|].
+    intro post.
+    destruct (crr_roundtrip r L ls capc cpc stc c1 capu outu (st0 (outu ++ bu1)) (b2 ++ post)
+                Hfind Hlok Hrok Hcanon Hinv Hcapc Hcapu Ha Ha0)
+      as [bn [rd [r' [Hbn [E1' [Hun [_ [Hsame _]]]]]]]].
+    destruct (IH capc cpc c1 stc' capu (outu ++ bu1) (st0 ((outu ++ bu1) ++ bu2)) (acc ++ [r']) Hc' Hinv1 Hpc Hpu Hltc Hltu)
+      as [_ [_ [b2' [E2' [_ Hsl]]]]].
+    destruct (Hsl post) as [rs' [Hs Hag]].
+    exists (r' :: rs'). split; [|constructor; [now exists L|exact Hag]].
+    cbn [length unpack_rr_slice]. rewrite E2, <- app_assoc, Hun.
+    assert (Hadv : (lenN (pn_out c1) =? lenN (pn_out stc)) = false).
+    { rewrite E1', lenN_app, len_crr_wire. lia. }
+    rewrite Hadv, app_assoc, <- E2, Hs, <- app_assoc. reflexivity.
+Qed.
+
+(* ================= the message ================= *)
+Lemma take_at_app_l (a b : bytes) off n : off + n <= lenN a -> take_at (a ++ b) off n = take_at a off n.
+Proof.
+  intro H. unfold take_at, takeN, dropN. rewrite skipn_app, firstn_app.
+  replace (N.to_nat n - length (skipn (N.to_nat off) a))%nat with O
+    by (rewrite skipn_length; unfold lenN in H; lia).
+  cbn [firstn]. now rewrite app_nil_r.
+Qed.
+
+(* the six 16-bit words of the header Pack writes *)
+Definition hword (m : msg) (i : N) : N := be (take_at (msg_hdr m) (2 * i) 2) 0.
+
+Lemma hword_at m rest i : i < 6 -> be (take_at (msg_hdr m ++ rest) (2 * i) 2) 0 = hword m i.
+Proof. intro H. unfold hword. rewrite take_at_app_l; [reflexivity|]. change (lenN (msg_hdr m)) with 12. lia. Qed.
+
+Lemma hword_2 m : lenN (m_question m) < 65536 -> hword m 2 = lenN (m_question m).
+Proof. intro H. unfold hword. change (take_at (msg_hdr m) (2 * 2) 2) with (u16 (lenN (m_question m))). now apply be_u16. Qed.
+Lemma hword_3 m : lenN (m_answer m) < 65536 -> hword m 3 = lenN (m_answer m).
+Proof. intro H. unfold hword. change (take_at (msg_hdr m) (2 * 3) 2) with (u16 (lenN (m_answer m))). now apply be_u16. Qed.
+Lemma hword_4 m : lenN (m_ns m) < 65536 -> hword m 4 = lenN (m_ns m).
+Proof. intro H. unfold hword. change (take_at (msg_hdr m) (2 * 4) 2) with (u16 (lenN (m_ns m))). now apply be_u16. Qed.
+Lemma hword_5 m : lenN (msg_extra m) < 65536 -> hword m 5 = lenN (msg_extra m).
+Proof. intro H. unfold hword. change (take_at (msg_hdr m) (2 * 5) 2) with (u16 (lenN (msg_extra m))). now apply be_u16. Qed.
+
+Definition rr_dflt : rr :=
+  {| rr_name := []; rr_type := 0; rr_class := 0; rr_ttl := 0; rr_rdlength := 0; rr_kind := ""; rr_data := [] |}.
+(* the RCODE Unpack reports: the low four header bits joined with the upper
+   eight bits held in the TTL of the last OPT record *)
+Definition ext_of (rc0 : N) (ex : list rr) : N :=
+  match last_opt_index ex O None with
+  | Some i => N.lor rc0 (ext_rcode_of_ttl (rr_ttl (nth i ex rr_dflt)))
+  | None => rc0
+  end.
+
+Lemma unpack_msg_assemble m rest qs' an' ns' ex' o1 o2 o3 o4 :
+  lenN (m_question m) < 65536 -> lenN (m_answer m) < 65536 -> lenN (m_ns m) < 65536 ->
+  lenN (msg_extra m) < 65536 -> rest <> [] ->
+  unpack_questions (length (m_question m)) (msg_hdr m ++ rest) 12 [] = Ok (qs', o1) ->
+  unpack_rr_slice (length (m_answer m)) (msg_hdr m ++ rest) o1 [] = Ok (an', o2) ->
+  unpack_rr_slice (length (m_ns m)) (msg_hdr m ++ rest) o2 [] = Ok (ns', o3) ->
+  unpack_rr_slice (length (msg_extra m)) (msg_hdr m ++ rest) o3 [] = Ok (ex', o4) ->
+  unpack_msg (msg_hdr m ++ rest) =
+  Ok (msg_of_bits (hword m 0) (hword m 1) qs' an' ns' ex' (ext_of (hword m 1 mod 16) ex'), false).
+Proof.
+  intros C2 C3 C4 C5 Hrest Hq Han Hns Hex. unfold unpack_msg.
+  assert (Hlen : lenN (msg_hdr m ++ rest) = 12 + lenN rest) by (rewrite lenN_app; reflexivity).
+  assert (Hr1 : 1 <= lenN rest). { destruct rest; [congruence|]. rewrite lenN_cons. lia. }
+  unfold unpack_fixed. rewrite Hlen. bfalse (12 + lenN rest <? 0 + 12). cbn [bind].
+  bfalse (12 + lenN rest =? 12).
+  rewrite !hword_at by lia.
+  rewrite (hword_2 m C2), (hword_3 m C3), (hword_4 m C4), (hword_5 m C5), !lenN_nat.
+  rewrite Hq, Han, Hns, Hex. reflexivity.
+Qed.
+
+Lemma unpack_msg_header_only m :
+  unpack_msg (msg_hdr m) = Ok (msg_of_bits (hword m 0) (hword m 1) [] [] [] [] (hword m 1 mod 16), false).
+Proof. reflexivity. Qed.
+
+Lemma rr_agrees_type_ttl r' r : rr_agrees r' r -> rr_type r' = rr_type r /\ rr_ttl r' = rr_ttl r.
+Proof. intros [L [_ [_ [Ht [_ [Httl _]]]]]]. auto. Qed.
+
+Lemma last_opt_index_agrees ex' ex : Forall2 rr_agrees ex' ex ->
+  forall i acc, last_opt_index ex' i acc = last_opt_index ex i acc.
+Proof.
+  induction 1 as [|r' r ex' ex Hr _ IH]; intros i acc; [reflexivity|]. cbn [last_opt_index].
+  unfold is_opt. rewrite (proj1 (rr_agrees_type_ttl _ _ Hr)). apply IH.
+Qed.
+
+Lemma nth_ttl_agrees ex' ex : Forall2 rr_agrees ex' ex ->
+  forall i, rr_ttl (nth i ex' rr_dflt) = rr_ttl (nth i ex rr_dflt).
+Proof.
+  induction 1 as [|r' r ex' ex Hr _ IH]; intros [|i]; cbn [nth]; auto.
+  exact (proj2 (rr_agrees_type_ttl _ _ Hr)).
+Qed.
+
+Lemma ext_of_agrees rc0 ex' ex : Forall2 rr_agrees ex' ex -> ext_of rc0 ex' = ext_of rc0 ex.
+Proof.
+  intro H. unfold ext_of. rewrite (last_opt_index_agrees _ _ H).
+  destruct (last_opt_index ex 0 None); [|reflexivity]. now rewrite (nth_ttl_agrees _ _ H).
+Qed.
+
+Lemma st0_of_none st : pn_cm st = None -> st = st0 (pn_out st).
+Proof. destruct st as [o c]. cbn. intros ->. reflexivity. Qed.
+
+(* canonical messages: the C01 conditions on every question and record (the
+   additional section as Pack writes it, i.e. with the extended RCODE set into
+   the OPT TTL), and section counts that fit the 16-bit header fields *)
+Definition msg_canon (m : msg) : Prop :=
+  Forall q_canon (m_question m) /\ Forall rr_canon (m_answer m) /\ Forall rr_canon (m_ns m) /\
+  Forall rr_canon (msg_extra m) /\
+  lenN (m_question m) < 65536 /\ lenN (m_answer m) < 65536 /\ lenN (m_ns m) < 65536 /\
+  lenN (msg_extra m) < 65536.
+
+(* Unpack of what Pack wrote, compressed or not: no error, the header words, the
+   questions, the RCODE, and records that agree with the packed ones *)
+Theorem unpack_of_pack m buflen w u wu uu :
+  LenMsgProofs.msg_okb m = true -> msg_canon m ->
+  pack_msg_buf m buflen = Ok (w, u) -> pack_msg_buf (uncompressed m) buflen = Ok (wu, uu) ->
+  exists an' ns' ex',
+    unpack_msg w = Ok (msg_of_bits (hword m 0) (hword m 1) (m_question m) an' ns' ex'
+                         (ext_of (hword m 1 mod 16) (msg_extra m)), false) /\
+    Forall2 rr_agrees an' (m_answer m) /\ Forall2 rr_agrees ns' (m_ns m) /\
+    Forall2 rr_agrees ex' (msg_extra m).
+Proof.
+  intros Hok [Cq [Can [Cns [Cex [N2 [N3 [N4 N5]]]]]]] Hc Hu.
+  pose proof (msg_okb_room _ _ _ _ Hok Hc) as Hltc.
+  pose proof (msg_okb_room _ _ _ _ (eq_trans (uncompressed_okb m) Hok) Hu) as Hltu.
+  rewrite uncompressed_cap in Hltu.
+  destruct (pack_msg_buf_st _ _ _ _ Hc) as [stc [Sc ->]]. destruct (pack_msg_buf_st _ _ _ _ Hu) as [stu [Su ->]].
+  unfold pack_msg_st in Sc, Su.
+  rewrite uncompressed_cap, uncompressed_extra, uncompressed_hdr, uncompressed_cflag in Su.
+  cbn [uncompressed m_question m_answer m_ns] in Su.
+  set (cap := msg_cap m buflen) in *.
+  inv_bind Sc. rename a into c1. apply pack_fixed_pemit in Ha. destruct Ha as [-> _].
+  inv_bind Sc. rename a into c2. rename Ha into Qc.
+  inv_bind Sc. rename a into c3. rename Ha into Ac.
+  inv_bind Sc. rename a into c4. rename Ha into Nc.
+  inv_bind Su. rename a into u1. apply pack_fixed_pemit in Ha. destruct Ha as [-> _].
+  inv_bind Su. rename a into u2. rename Ha into Qu.
+  inv_bind Su. rename a into u3. rename Ha into Au.
+  inv_bind Su. rename a into u4. rename Ha into Nu.
+  (* monotone lengths *)
+  assert (I0 : st_inv (msg_st0 m)).
+  { unfold msg_st0. destruct (msg_cflag m); [apply st_inv_empty_map|apply st_inv_no_map]. }
+  pose proof (step_st_inv _ _ _ (step_pemit (msg_st0 m) (msg_hdr m)) I0) as I1.
+  set (c1 := pemit (msg_st0 m) (msg_hdr m)) in *.
+  assert (Ec1 : pn_out c1 = msg_hdr m) by reflexivity.
+  destruct (cquestions_roundtrip _ _ _ _ _ [] Cq I1 Qc) as [I2 [bq [Eq [Hbq Uq]]]].
+  pose proof (proj1 (proj1 (st_inv_split c2) I2)) as K2.
+  destruct (pack_rrs_mono _ _ _ _ _ K2 Ac) as [K3 [_ M3]].
+  destruct (pack_rrs_mono _ _ _ _ _ K3 Nc) as [K4 [_ M4]].
+  destruct (pack_rrs_mono _ _ _ _ _ K4 Sc) as [_ [_ M5]].
+  (* the uncompressed run stays map-less *)
+  set (u1 := pemit (msg_st0 (uncompressed m)) (msg_hdr m)) in *.
+  assert (Ku1 : opt_all cm_keys (pn_cm u1)) by exact I.
+  assert (Nu1 : pn_cm u1 = None) by reflexivity.
+  destruct (step_mono _ _ _ (step_questions _ _ _ _ _ Qu) Ku1) as [Ku2 [Nn2 _]].
+  specialize (Nn2 Nu1). rewrite (st0_of_none u2 Nn2) in Au.
+  assert (Ku2' : opt_all cm_keys (pn_cm (st0 (pn_out u2)))) by exact I.
+  destruct (pack_rrs_mono _ _ _ _ _ Ku2' Au) as [Ku3 [_ Mu3]].
+  destruct (pack_rrs_mono _ _ _ _ _ Ku3 Nu) as [Ku4 [_ Mu4]].
+  destruct (pack_rrs_mono _ _ _ _ _ Ku4 Su) as [_ [_ Mu5]].
+  (* the three record sections *)
+  destruct (crrs_roundtrip _ cap (msg_cflag m) c2 c3 cap (pn_out u2) u3 [] Can I2 Ac Au ltac:(lia) ltac:(lia))
+    as [I3 [[bu3 Eu3] [ba [Ea [Hba Ua]]]]].
+  subst u3.
+  destruct (crrs_roundtrip _ cap (msg_cflag m) c3 c4 cap _ u4 [] Cns I3 Nc Nu ltac:(lia) ltac:(lia))
+    as [I4 [[bu4 Eu4] [bn [En [Hbn Un]]]]].
+  subst u4.
+  destruct (crrs_roundtrip _ cap (msg_cflag m) c4 stc cap _ stu [] Cex I4 Sc Su ltac:(lia) ltac:(lia))
+    as [_ [_ [be [Ee [Hbe Ue]]]]].
+  (* the octets *)
+  assert (Ew : pn_out stc = msg_hdr m ++ (bq ++ ba ++ bn ++ be)).
+  { rewrite Ee, En, Ea, Eq, Ec1, <- !app_assoc. reflexivity. }
+  destruct (Ua (bn ++ be)) as [an' [Uan Fan]]. destruct (Un be) as [ns' [Uns Fns]].
+  destruct (Ue []) as [ex' [Uex Fex]].
+  specialize (Uq (ba ++ bn ++ be)).
+  assert (W2 : pn_out c2 ++ ba ++ bn ++ be = pn_out stc) by (rewrite Ee, En, Ea, <- !app_assoc; reflexivity).
+  assert (W3 : pn_out c3 ++ bn ++ be = pn_out stc) by (rewrite Ee, En, <- !app_assoc; reflexivity).
+  assert (W4 : pn_out c4 ++ be = pn_out stc) by (rewrite Ee; reflexivity).
+  rewrite W2 in Uq. rewrite W3 in Uan. rewrite W4 in Uns. rewrite app_nil_r in Uex.
+  assert (L1 : lenN (pn_out c1) = 12) by reflexivity. rewrite L1 in Uq. cbn [app] in Uq, Uan, Uns, Uex.
+  exists an', ns', ex'. split; [|auto].
+  rewrite <- (ext_of_agrees _ _ _ Fex).
+  destruct (list_eq_dec N.eq_dec (bq ++ ba ++ bn ++ be) []) as [Enil|Hne].
+  - (* nothing but the header: every section is empty *)
+    apply app_eq_nil in Enil. destruct Enil as [Eq0 Enil]. apply app_eq_nil in Enil. destruct Enil as [Ea0 Enil].
+    apply app_eq_nil in Enil. destruct Enil as [En0 Ee0].
+    assert (Q0 : m_question m = []).
+    { destruct (m_question m); [reflexivity|]. subst bq. specialize (Hbq ltac:(discriminate)). cbn in Hbq. lia. }
+    assert (A0 : m_answer m = []).
+    { destruct (m_answer m); [reflexivity|]. subst ba. specialize (Hba ltac:(discriminate)). cbn in Hba. lia. }
+    assert (S0 : m_ns m = []).
+    { destruct (m_ns m); [reflexivity|]. subst bn. specialize (Hbn ltac:(discriminate)). cbn in Hbn. lia. }
+    assert (X0 : msg_extra m = []).
+    { destruct (msg_extra m); [reflexivity|]. subst be. specialize (Hbe ltac:(discriminate)). cbn in Hbe. lia. }
+    rewrite A0 in Fan. rewrite S0 in Fns. rewrite X0 in Fex.
+    assert (Ean : an' = []) by (inversion Fan; reflexivity).
+    assert (Ens : ns' = []) by (inversion Fns; reflexivity).
+    assert (Eex : ex' = []) by (inversion Fex; reflexivity).
+    rewrite Ean, Ens, Eex.
+    rewrite Ew, Eq0, Ea0, En0, Ee0, app_nil_r, Q0. apply unpack_msg_header_only.
+  - rewrite Ew in *.
+    exact (unpack_msg_assemble m _ _ _ _ _ _ _ _ _ N2 N3 N4 N5 Hne Uq Uan Uns Uex).
+Qed.
+
+(* ================= transparency at the level of Unpack ================= *)
+Definition rr_hdr_eq (a b : rr) : Prop :=
+  rr_name a = rr_name b /\ rr_type a = rr_type b /\ rr_class a = rr_class b /\ rr_ttl a = rr_ttl b /\
+  rr_kind a = rr_kind b.
+
+Lemma agrees_hdr_eq : forall lc lu l, Forall2 rr_agrees lc l -> Forall2 rr_agrees lu l -> Forall2 rr_hdr_eq lc lu.
+Proof.
+  induction lc as [|a lc IH]; intros lu l Hc Hu.
+  - inversion Hc; subst. inversion Hu; subst. constructor.
+  - inversion Hc as [|? r ? l' Ha Hc']; subst. inversion Hu as [|b ? lu' ? Hb Hu']; subst. constructor.
+    + destruct Ha as [L [_ [A1 [A2 [A3 [A4 [A5 _]]]]]]]. destruct Hb as [L' [_ [B1 [B2 [B3 [B4 [B5 _]]]]]]].
+      unfold rr_hdr_eq. repeat split; congruence.
+    + eapply IH; eauto.
+Qed.
+
+(* Pack with compression and Pack without: Unpack accepts both without error
+   and returns the same header words, the same questions, the same RCODE, and
+   section by section records that agree with the packed message field by field
+   (hence with each other on owner, TYPE, CLASS, TTL and struct type; the decoded
+   RDATA fields of both are those of the packed record, Hdr.Rdlength is the
+   wire length of the RDATA and is the one thing that legitimately differs) *)
+Theorem compression_is_transparent_unpack m buflen wc uc wu uu :
+  LenMsgProofs.msg_okb m = true -> msg_canon m ->
+  pack_msg_buf m buflen = Ok (wc, uc) -> pack_msg_buf (uncompressed m) buflen = Ok (wu, uu) ->
+  exists anc nsc exc anu nsu exu,
+    unpack_msg wc = Ok (msg_of_bits (hword m 0) (hword m 1) (m_question m) anc nsc exc
+                          (ext_of (hword m 1 mod 16) (msg_extra m)), false) /\
+    unpack_msg wu = Ok (msg_of_bits (hword m 0) (hword m 1) (m_question m) anu nsu exu
+                          (ext_of (hword m 1 mod 16) (msg_extra m)), false) /\
+    Forall2 rr_agrees anc (m_answer m) /\ Forall2 rr_agrees anu (m_answer m) /\
+    Forall2 rr_agrees nsc (m_ns m) /\ Forall2 rr_agrees nsu (m_ns m) /\
+    Forall2 rr_agrees exc (msg_extra m) /\ Forall2 rr_agrees exu (msg_extra m) /\
+    Forall2 rr_hdr_eq anc anu /\ Forall2 rr_hdr_eq nsc nsu /\ Forall2 rr_hdr_eq exc exu.
+Proof.
+  intros Hok Hcan Hc Hu.
+  destruct (unpack_of_pack m buflen wc uc wu uu Hok Hcan Hc Hu) as [anc [nsc [exc [Uc [A1 [A2 A3]]]]]].
+  destruct (unpack_of_pack (uncompressed m) buflen wu uu wu uu Hok Hcan Hu Hu) as [anu [nsu [exu [Uu [B1 [B2 B3]]]]]].
+  exists anc, nsc, exc, anu, nsu, exu. split; [exact Uc|]. split; [exact Uu|].
+  repeat split; auto; eapply agrees_hdr_eq; eauto.
+Qed.
+
+(* ================= non-vacuity ================= *)
+Lemma ex_name_canon : forall s ls, s = show_name ls -> valid_wire ls = true ->
+  exists ls0, V_s s = V_s (show_name ls0) /\ valid_wire ls0 = true.
+Proof. intros s ls -> H. now exists ls. Qed.
+
+Example ex_msg_canon : msg_canon ex_msg /\ LenMsgProofs.msg_okb ex_msg = true.
+Proof.
+  split; [|vm_compute; reflexivity].
+  pose (exl := [ex_l "Example"; ex_l "com"]). pose (nsl := ex_l "ns1" :: exl).
+  pose (lxl := [ex_l "example"; ex_l "com"]). pose (mxl := ex_l "mail" :: exl).
+  unfold msg_canon. change (msg_extra ex_msg) with (m_extra ex_msg).
+  cbn [ex_msg ex_msg_of m_question m_answer m_ns m_extra].
+  split; [|split; [|split; [|split; [|repeat split; vm_compute; reflexivity]]]].
+  - constructor; [|constructor]. exists exl. repeat split; vm_compute; reflexivity.
+  - constructor; [|constructor; [|constructor]].
+    + eexists. exists exl. split; [reflexivity|]. split; [repeat split; vm_compute; reflexivity|].
+      constructor; [|constructor]. cbn [fst snd field_canon]. eexists. split; [reflexivity|].
+      apply (ex_name_canon _ nsl); vm_compute; reflexivity.
+    + eexists. exists lxl. split; [reflexivity|]. split; [repeat split; vm_compute; reflexivity|].
+      constructor; [|constructor; [|constructor]]; cbn [fst snd field_canon]; (eexists; split; [reflexivity|]).
+      * exists 10. split; [reflexivity|]. vm_compute. reflexivity.
+      * apply (ex_name_canon _ mxl); vm_compute; reflexivity.
+  - constructor.
+  - constructor; [|constructor].
+    eexists. exists nsl. split; [reflexivity|]. split; [repeat split; vm_compute; reflexivity|].
+    constructor; [|constructor]. cbn [fst snd field_canon]. eexists. split; [reflexivity|].
+    exists [192; 0; 2; 1]. split; reflexivity.
+Qed.
+
+(* and computed: both packings of that message unpack without error to the same
+   questions and to records that differ in Rdlength only *)
+Definition rr_no_len (r : rr) : rr :=
+  {| rr_name := rr_name r; rr_type := rr_type r; rr_class := rr_class r; rr_ttl := rr_ttl r;
+     rr_rdlength := 0; rr_kind := rr_kind r; rr_data := rr_data r |}.
+
+Example ex_msg_unpacks :
+  match pack_msg_buf ex_msg 0, pack_msg_buf (uncompressed ex_msg) 0 return Prop with
+  | Ok (wc, _), Ok (wu, _) =>
+    match unpack_msg wc, unpack_msg wu return Prop with
+    | Ok (mc, fc), Ok (mu, fu) =>
+      fc = false /\ fu = false /\ m_question mc = m_question ex_msg /\ m_question mu = m_question ex_msg /\
+      map rr_no_len (m_answer mc) = map rr_no_len (m_answer mu) /\
+      map rr_no_len (m_extra mc) = map rr_no_len (m_extra mu) /\
+      map rr_rdlength (m_answer mc) = [6; 9] /\ map rr_rdlength (m_answer mu) = [17; 20] /\
+      map rr_name (m_answer mc) = map rr_name (m_answer ex_msg) /\
+      map rr_data (m_answer mc) = map rr_data (m_answer ex_msg)
+    | _, _ => False
+    end
+  | _, _ => False
+  end.
+Proof. vm_compute. repeat split. Qed.
